@@ -295,7 +295,7 @@ impl Check for C03 {
     }
     fn runs(&self, tier: Tier) -> u64 {
         match tier {
-            Tier::Quick => 1_000_000,
+            Tier::Quick => 2_000_000,
             Tier::Thorough => 60_000_000,
         }
     }
